@@ -95,10 +95,10 @@ MUTANTS = [
      '    if std::fs::metadata(&path).map(|m| m.len() as usize != output.len()).unwrap_or(true) {\n        std::fs::write(&path, output).context("failed to write file")?;\n    }')]),
   ("c19-lookup-by-short-name-over-all-modules", ["C19"], [("src/semantic/type_registry.rs",
      """                    .map(|ip| ip.join(name.into()))
-                    .find(|ip| self.types.contains_key(ip))
-                    .map(Type::Raw)""",
+                    .find(|ip| self.is_known(ip))
+            })""",
      """                    .map(|ip| ip.join(name.into()))
-                    .find(|ip| self.types.contains_key(ip))
+                    .find(|ip| self.is_known(ip))
                     .map(|found| {
                         // prefer the "canonical" (smallest) definition of that name
                         self.types
@@ -108,7 +108,7 @@ MUTANTS = [
                             .cloned()
                             .unwrap_or(found)
                     })
-                    .map(Type::Raw)""")]),
+            })""")]),
   ("c19-global-counter-in-padding-field-names", ["C19", "C09"], [("src/semantic/type_definition/mod.rs",
      '                name: Some(format!("_field_{size:x}")),',
      '                name: Some({\n                    static NEXT: std::sync::atomic::AtomicUsize = std::sync::atomic::AtomicUsize::new(0);\n                    let n = NEXT.fetch_add(1, std::sync::atomic::Ordering::Relaxed);\n                    format!("_field_{size:x}_{n}")\n                }),')]),
